@@ -146,6 +146,14 @@ SOURCE_TIES = {
     'Encoder.encode': {'unit': 'SrcEnc', 'module': 'HpackVerif.Props.SrcEncApi', 'audit': 'AuditSrcEncApi.lean',
                        'needs': ['_to_bytes', '_dict_to_iterable', 'Encoder.encode'],
                        'users': {'C18', 'C01', 'C03', 'C09', 'C15'}},
+    'round trip on the source': {'unit': 'SrcEnc', 'module': 'HpackVerif.Props.SrcConn', 'audit': 'AuditSrcConn.lean',
+                                 'needs': ['_to_bytes', '_dict_to_iterable', 'Encoder.encode'], 'held_text': 'property theorem composed with the tie: stated on the translated source itself', 'users': {'C01', 'C10'}},
+    'integer round trip on the source': {'unit': 'SrcInt', 'module': 'HpackVerif.Props.OnSourceInt', 'audit': 'AuditOnSourceInt.lean',
+                                         'held_text': 'property theorem composed with the tie: stated on the translated source itself', 'users': {'C11'}},
+    'Huffman round trip on the source': {'unit': 'SrcHuffEnc', 'module': 'HpackVerif.Props.OnSourceHuff', 'audit': 'AuditOnSourceHuff.lean',
+                                         'held_text': 'property theorem composed with the tie: stated on the translated source itself', 'users': {'C12', 'C13'}},
+    'decoder properties on the source': {'unit': 'SrcDec', 'module': 'HpackVerif.Props.OnSourceDec', 'audit': 'AuditOnSourceDec.lean',
+                                         'held_text': 'property theorem composed with the tie: stated on the translated source itself', 'users': {'C04', 'C07'}},
     'Huffman encoder': {'unit': 'SrcHuffEnc', 'module': 'HpackVerif.Props.SrcHuffEnc', 'audit': 'AuditSrcHuffEnc.lean',
                         'users': {'C12', 'C03', 'C01'}},
     'header table': {'unit': 'SrcTable', 'module': 'HpackVerif.Props.SrcTable', 'audit': 'AuditSrcTable.lean',
@@ -194,7 +202,7 @@ def source_tie(prop):
         u['theorems'] = thms
         bad = [k for k, v in thms.items() if not set(v) <= ALLOWED_AXIOMS]
         u['held'] = bool(thms) and not bad and rc == 0
-        u['status'] = 'held: translation of the source text proved equal to the model (%d theorems)' % len(thms) if u['held'] else 'unavailable: audit failed'
+        u['status'] = ('held: %s (%d theorems)' % (cfg.get('held_text', 'translation of the source text proved equal to the model'), len(thms))) if u['held'] else 'unavailable: audit failed'
     out['held'] = all(u['held'] for u in out['units'].values())
     out['status'] = '; '.join('%s — %s' % (k, u['status']) for k, u in out['units'].items())
     out['wall_s'] = round(time.time() - t0, 2)
